@@ -151,6 +151,17 @@ def run(ctx: Ctx) -> None:
                     key = ev[1].split('|')[0]
                     s = s.emit(('sample', key, '', val.canon()))
                     records.append((key, val, c))
+                    # table.setdefault(key, DEFAULT).append(x): on the first call of a name DEFAULT's elements are samples too
+                    base = c.func.value
+                    if isinstance(base, ast.Call) and len(base.args) >= 2:
+                        dflt = base.args[1]
+                        if isinstance(dflt, (ast.List, ast.Tuple)):
+                            for el in dflt.elts:
+                                dv = self.value(s, el)
+                                s = s.emit(('sample', key, '', dv.canon()))
+                                records.append((key, dv, c))
+                        elif not (isinstance(dflt, ast.Call) and norm(dflt) in ('list()', '[]')):
+                            s = s.emit(('overwrite', key, '', norm(dflt)))
             return s
 
         def stmt(self, s, st):  # noqa: ANN001
@@ -347,6 +358,22 @@ def run(ctx: Ctx) -> None:
             if bad:
                 ctx.violate('T7', f, bad, f'{f.short}: {bad} changes the recorded samples outside the timing wrapper / clear_trace: later queries no longer cover every completed call', n)
     ctx.ok('T7', 'kfac.tracing', f'{n_funcs} other function(s) use the sample table read-only', None)
+
+    # log_trace reports what get_trace computes for the same query
+    lt = p.get_func('tracing.log_trace')
+    gcalls = [c for c in p.calls_in(lt) if norm(c.func).split('.')[-1] == 'get_trace']
+    ctx.check(len(gcalls) == 1, 'T5', lt, 'log_trace reports get_trace(...)', 'log_trace source', f'log_trace calls get_trace {len(gcalls)} time(s)', lt.node)
+    for c in gcalls:
+        bound = {}
+        for i, a_ in enumerate(c.args):
+            if i < len(gt.params):
+                bound[gt.params[i]] = norm(a_)
+        for k in c.keywords:
+            if k.arg:
+                bound[k.arg] = norm(k.value)
+        for prm in gt.params:
+            ctx.check(prm in lt.params and bound.get(prm) == prm, 'T5', lt, f'log_trace forwards {prm}', f'log_trace {prm}',
+                      f'log_trace calls {norm(c)}: its argument {prm!r} is not forwarded to get_trace, so the logged statistic ignores it', c)
 
     # --- T6 clear_trace
     ct = p.get_func('tracing.clear_trace')
